@@ -18,6 +18,15 @@ type Cond struct {
 	L, R *Cond
 }
 
+// ref: how a condition names its operand: an instance variable by its name, a DATA OBJECT (name starting with "@")
+// through the expression engine's getDataObject function
+func ref(v string) string {
+	if strings.HasPrefix(v, "@") {
+		return "getDataObject('" + v[1:] + "')"
+	}
+	return v
+}
+
 func (c *Cond) Expr() string {
 	switch c.Op {
 	case "true":
@@ -25,11 +34,11 @@ func (c *Cond) Expr() string {
 	case "false":
 		return "false"
 	case "eq":
-		return fmt.Sprintf("%s == %d", c.Var, c.K)
+		return fmt.Sprintf("%s == %d", ref(c.Var), c.K)
 	case "ne":
-		return fmt.Sprintf("%s != %d", c.Var, c.K)
+		return fmt.Sprintf("%s != %d", ref(c.Var), c.K)
 	case "lt":
-		return fmt.Sprintf("%s < %d", c.Var, c.K)
+		return fmt.Sprintf("%s < %d", ref(c.Var), c.K)
 	case "and":
 		return "(" + c.L.Expr() + ") && (" + c.R.Expr() + ")"
 	case "or":
@@ -39,7 +48,7 @@ func (c *Cond) Expr() string {
 	case "informal":
 		return "whatever"
 	case "nonbool":
-		return fmt.Sprintf("%s + %d", c.Var, c.K)
+		return fmt.Sprintf("%s + %d", ref(c.Var), c.K)
 	}
 	panic("cond op " + c.Op)
 }
@@ -74,9 +83,9 @@ type Node struct {
 	Default string
 	Parent  string // enclosing sub-process id, "" for the process
 	// activities
-	Results []string // olive:results fields
-	Outputs []string // olive:dataOutput names
-	Retries int
+	Results    []string // olive:results fields
+	Outputs    []string // olive:dataOutput names
+	Retries    int
 	HasTaskDef bool
 	// events
 	Defs             []EventDef
@@ -98,9 +107,9 @@ type Graph struct {
 	nn    int
 	nf    int
 	// CondRPN maps the expression text found in the parsed definitions back to RPN
-	CondRPN map[string]string
+	CondRPN    map[string]string
 	Executable bool
-	ProcID  string
+	ProcID     string
 }
 
 func NewGraph() *Graph {
@@ -189,6 +198,15 @@ func (g *Graph) XML() string {
 		}
 	}
 	fmt.Fprintf(&sb, "<bpmn:process id=%q isExecutable=\"%v\">\n", g.ProcID, g.Executable)
+	declared := map[string]bool{}
+	for _, n := range g.Nodes {
+		for _, o := range n.Outputs {
+			if !declared[o] {
+				declared[o] = true
+				fmt.Fprintf(&sb, "<bpmn:dataObject id=%q name=%q/>\n", o, o)
+			}
+		}
+	}
 	g.container(&sb, "")
 	sb.WriteString("</bpmn:process>\n</bpmn:definitions>\n")
 	return sb.String()
@@ -279,7 +297,13 @@ type Frag struct{ Entry, Exit *Node }
 
 func (g *Graph) Task(kind, id, parent string, results ...string) Frag {
 	n := g.Add(kind, id, parent)
-	n.Results = results
+	for _, r := range results {
+		if strings.HasPrefix(r, "@") {
+			n.Outputs = append(n.Outputs, r[1:]) // a data output (data object of the same name, declared by XML())
+		} else {
+			n.Results = append(n.Results, r)
+		}
+	}
 	return Frag{n, n}
 }
 
